@@ -227,4 +227,4 @@ package sbom
 //@ func NodeList.connectedIndexRecursion
 //@   props C11
 //@   requires boundaries != nil && connectedNodes != nil
-//@   assigns connectedNodes.*, (connectedNodes.*)[*]
+//@   assigns connectedNodes.*, (*connectedNodes)[*]
